@@ -200,8 +200,8 @@ let rec render_node (n : node) : Stdlib.String.t =
       | KRec (mr, lr) -> "rec(" ^ b01 mr ^ b01 lr ^ ")"
       | KUnion subs -> "union(" ^ Stdlib.String.concat "," (List.map render_sub subs) ^ ")"
       | KFilter q -> "filter(" ^ render_query q ^ ")"
-      | KFFun f -> "ffun(" ^ ocaml_string f ^ ")"
-      | KAgg (f, p) -> "agg(" ^ ocaml_string f ^ ";" ^ render_node p ^ ")"
+      | KFFun _ -> "ffun"
+      | KAgg (_, p) -> "agg(" ^ render_node p ^ ")"
     in
     "<" ^ ks ^ "|" ^ render_basic b ^ ">" ^ (match nx with OSome m -> render_node m | ONone -> "")
 and nodes_list (ns : nodes) = match ns with NNil -> [] | NCons (n, r) -> n :: nodes_list r
